@@ -408,3 +408,7 @@ mod tests {
         Ok(())
     }
 }
+
+#[cfg(kani)]
+#[path = "/verif/harness/bgzf/reader.rs"]
+mod verif_kani;
